@@ -13,8 +13,10 @@ CREATE_STREAM = r"^cfb::CompoundFile::<F>::create_stream$"
 WRITE_CALL = re.compile(r"^(std::io::Write::(write|write_all|write_fmt|write_vectored)|byteorder::WriteBytesExt::\w+)$")
 
 
-def succeeded_facts(S, block):
-    """set of call blocks K such that `result of call at K` went through `?` successfully before `block`"""
+def succeeded_facts(S, block, _depth=0):
+    """set of call blocks K such that `result of call at K` went through `?` successfully before `block`.
+    The operand of the `?` may be the call's result directly, or a local it was moved into (the return place of an inlined helper whose only other
+    definitions are `from_residual` error results: on the Continue edge the value can only be K's Ok)."""
     out = set()
     for (e, op, v, g) in S.facts_at(block):
         m = re.fullmatch(r"discr\(call@(\d+):<std::result::Result<T, E> as std::ops::Try>::branch\)", e)
@@ -25,6 +27,16 @@ def succeeded_facts(S, block):
             mm = re.match(r"call@(\d+):", a)
             if mm:
                 out.add(int(mm.group(1)))
+                continue
+            os_ = S.du.origins(t["args"][0])
+            if any(o[0] != "call" for o in os_):
+                continue
+            real = [o for o in os_ if not (o[2].get("callee") or "").endswith("from_residual")]
+            if len(real) == 1 and not real[0][3]:
+                out.add(real[0][1])
+                # whatever had succeeded before that call ran has succeeded here too
+                if _depth < 4:
+                    out |= succeeded_facts(S, real[0][1], _depth + 1)
     return out
 
 
@@ -408,6 +420,10 @@ def dirty2(ctx, rule="DIRTY-2"):
     if ok:
         v = S.val(st[0][1]["rhs"]["ops"][0]) if st[0][1]["rhs"].get("ops") else ""
         ok = "Option::Some" in v or st[0][1]["rhs"].get("variant") == "Some"
-        ok = ok and has_fact(S, st[0][0], r"Option::<T>::is_none\(&\*p1\.finisher\)", True)
+        fs = S.bool_facts_at(st[0][0])
+        empty = has_fact(S, st[0][0], r"Option::<T>::is_none\(&\*p1\.finisher\)", True) or has_fact(S, st[0][0], r"Option::<T>::is_some\(&\*p1\.finisher\)", False) or \
+            has_fact(S, st[0][0], r"^discr\(\*p1\.finisher\)$", ("==", 0))
+        # stored when the slot is empty (any spelling of that test), or unconditionally; never under an unrelated condition
+        ok = ok and (empty or not fs) and len(fs) <= 1
     boxed = [t for b, t in f.calls() if (t.get("callee") or "").endswith("Box::<T>::new") and "FinishImpl" in (t.get("written") or "")]
     ctx.check(ok and len(boxed) == 1, rule, "set_finisher stores Some(Box<FinishImpl>) when empty", "", "set_finisher does not store Some(Box::new(FinishImpl)) into an empty slot", f.loc(), fn=f.name)
